@@ -467,6 +467,11 @@ def bp_workloads(ctx, count):
             # a failing *fragment* (< block size) is never compressed by a worker; make sure one full block fails
             if all(int(f.split(":")[0]) < bs for f in files if f.endswith(":e")):
                 files.append("%d:e" % bs)
+            elif ctx.rng.random() < 0.3:
+                # the failing block last in the stream: nothing is submitted after the failure (the schedule decides whether
+                # the block processor still notices it — see the side finding in docs/design/C09.md)
+                e = [f for f in files if f.endswith(":e")]
+                files = [f for f in files if not f.endswith(":e")] + ["%d:e" % (int(e[0].split(":")[0]) // bs * bs or bs)]
         out.append(("%d %s" % (bs, " ".join(files)), fail))
     return out
 
